@@ -17,7 +17,7 @@ ASSUMPTIONS = [
     "branches and path feasibility",
     "for measurements the envelope partner of an addressed member counts as addressed unless separate_measurement",
 ]
-BOUNDS = {"quick": "3 worlds (up to three product spaces in one composite) x ~40 actions (single operations, CX, Kraus on 1/2 subsystems, POVM, projective measurement, partial "
+BOUNDS = {"quick": "5 worlds (one with arbitrary un-normalised block contents, one with contraction on and a pure matrix-level bystander; up to three product spaces in one composite) x ~40 actions (single operations, CX, Kraus on 1/2 subsystems, POVM, projective measurement, partial "
                    "trace, resize, combine, reorder) over 3 envelopes + 1 custom state",
           "thorough": "same"}
 OPTS = {"quick": {"max_paths": 32, "timeout_ms": 10000, "case_timeout_s": 900, "exact_close": True},
@@ -40,6 +40,19 @@ def _worlds():
                           {"kind": "ps", "ce": 0, "members": ["f1", "p1"], "level": "V"},
                           {"kind": "ps", "ce": 0, "members": ["p2", "f2"], "level": "V"},
                           {"kind": "own", "sub": "f0", "level": "V"}], comp),
+        # "bit-identical amplitudes": a bystander that is re-normalised is unchanged over the reals but not in floating
+        # point.  Here every block holds an arbitrary complex array (NOT normalised - a superset of the stored states, the
+        # library never tests stored states for unit norm), so x / |x| differs from x and is reported; x * 1 is not.
+        "F": cm.world(S, [{"kind": "ps", "ce": 0, "members": ["p0", "c0"], "level": "V", "free": True},
+                          {"kind": "ps", "ce": 0, "members": ["f1", "p1"], "level": "V", "free": True},
+                          {"kind": "ps", "ce": 0, "members": ["p2", "f2"], "level": "M", "free": True},
+                          {"kind": "own", "sub": "f0", "level": "V"}], comp),
+        # contraction switched on, one bystander product space holds a PURE state in matrix form (concrete numbers): a
+        # bystander that is "measured with no targets" / re-contracted changes its representation
+        "G": dict(cm.world(S, [{"kind": "ps", "ce": 0, "members": ["p0", "c0"], "level": "M", "concrete": "pure"},
+                               {"kind": "ps", "ce": 0, "members": ["f1", "p1"], "level": "V"},
+                               {"kind": "own", "sub": "p2", "level": "V"},
+                               {"kind": "own", "sub": "f0", "level": "V"}], comp), contraction=True),
     }
 
 
@@ -59,8 +72,14 @@ ACTIONS = [
 
 def cases(tier):
     out = []
-    for wid in ("A", "B", "C"):
+    for wid in ("A", "B", "C", "F", "G"):
         for act, tg in ACTIONS:
+            if wid == "F" and act in ("trace_out", "trace_out-state", "expand", "op", "op-ce", "cx", "combine", "reorder", "resize"):
+                if (act, tg) not in ((("op", ["p1"]), ("cx", ["p0", "p1"]), ("combine", ["p0", "p1"]), ("resize", ["f1"]))):
+                    continue  # (worlds F / G repeat the measurement / channel / POVM actions and one action of each other kind)
+            if wid == "G" and (any(t in ("p0", "c0") for t in tg) or act in ("expand", "reorder", "trace_out-state") or
+                               (act == "povm" and len(tg) > 1)):
+                continue  # the concrete pure block is the bystander of this world
             out.append({"id": f"{wid}/{act}/{','.join(tg)}", "world": wid, "act": act, "targets": tg})
     return out
 
